@@ -600,6 +600,51 @@ def failing_deletes(ctx, n):
         ctx.nontrivial("failing-delete:" + c["id"])
 
 
+def leftover_blocks(ctx, n):
+    """A backup killed between creating a block file and writing it leaves the file empty.  A later backup may complete it
+    (documented exception) but no backup -- in particular one of an unrelated tree -- removes it."""
+    cases = []
+    for t in range(n):
+        ta = scen.small_tree(ctx.rng)
+        tb = json.loads(json.dumps(ta))
+        tb["c"]["fresh-content"] = {"k": "f", "data": gen.rand_bytes(ctx.rng, 9).hex(), "mode": 0o644, "mtime": 10**18 + 70}
+        tc = {"k": "d", "mode": 0o755, "mtime": 10**18, "c": {"unrelated": {"k": "f", "data": gen.rand_bytes(ctx.rng, 7).hex(), "mode": 0o644, "mtime": 10**18 + 80}}}
+        o = {"meph": ctx.rng.choice([2, 100000]), "mbs": 64, "sfc": ctx.rng.choice([0, 16])}
+        pre = [{"op": "init"}, {"op": "mktree", "path": "src", "tree": ta}, {"op": "backup", "opts": o}, {"op": "mktree", "path": "src", "tree": tb}]
+        probe = ctx.cvh_run([{"id": "p", "steps": pre + [{"op": "backup", "opts": o}]}]).get("p")
+        if not probe or not probe[4].get("trace"):
+            continue
+        w = [it for it in probe[4]["trace"] if it.get("verb") == "Write" and str(it.get("path", "")).startswith("d/")]
+        if not w:
+            continue
+        rule = ["Write", w[0]["path"], 0, "crash_empty"]
+        steps = pre + [{"op": "backup", "opts": o, "plan": {"rules": [rule]}}, {"op": "arch"},
+                       {"op": "mktree", "path": "src", "tree": tc if t % 2 == 0 else tb}, {"op": "backup", "opts": o}, {"op": "arch"}]
+        cases.append({"id": f"lo{t}", "steps": steps, "leftover": w[0]["path"], "unrelated": t % 2 == 0})
+    res = ctx.cvh_run(cases)
+    for c in cases:
+        r = res.get(c["id"])
+        ctx.count()
+        small = {"steps": c["steps"]}
+        if r is None or any(isinstance(x, dict) and x.get("panic") for x in r):
+            ctx.oracle_fail("writeonce/panic", "a backup beside a leftover block file crashed or hung", small)
+            continue
+        before, after = scen.raw_files(r[5]["arch"]), scen.raw_files(r[8]["arch"])
+        if c["leftover"] not in before:
+            continue        # the kill did not leave the file (the block was not new after all)
+        gone = [p_ for p_ in before if p_ not in after]
+        if gone:
+            ctx.oracle_fail("writeonce/backup-removed-file", f"a backup of {'an unrelated' if c['unrelated'] else 'the same'} tree removed {gone[:2]} "
+                                                             f"(the zero-length leftover of a killed backup is {c['leftover']})", small)
+            continue
+        changed = [p_ for p_ in before if after.get(p_) != before[p_] and p_ != c["leftover"]]
+        if changed:
+            ctx.oracle_fail("writeonce/backup-altered-file", f"a backup beside a leftover block altered {changed[:2]}", small)
+            continue
+        ctx.dist("leftover_block_" + ("kept" if c["unrelated"] else "completed_or_kept"))
+        ctx.nontrivial("leftover:" + c["id"])
+
+
 def exclusive_creation(ctx, rounds):
     """The atomicity the interleaving model (run2: whole transport operations) takes for granted: of several writers creating
     the same fresh path with CreateNew at the same moment, exactly one wins and the file holds the winner's bytes."""
@@ -637,6 +682,7 @@ def run(ctx):
     racing_backups(ctx, 30 if quick else 600)
     collector_beside_backup(ctx, 3 if quick else 30)
     failing_deletes(ctx, 9 if quick else 90)
+    leftover_blocks(ctx, 6 if quick else 60)
     exclusive_creation(ctx, 4000 if quick else 60000)
     ctx.assumptions += ["the local transport is the one exercised; S3/SFTP are outside (they already refuse an existing path)",
                         "a zero-length leftover of a killed write may be completed (documented exception)"]
